@@ -10,6 +10,15 @@ K_IPTABLE = {"unit": "iptable", "inject": "elvis-core/src/ip_table.rs", "crate":
 K_MESSAGE = {"unit": "message", "inject": "elvis-core/src/message/slice_range.rs", "crate": "elvis-core"}
 
 PROPS = {
+    "C10": {
+        "units": ["frag", "message"],
+        "level": "proof",
+        "technique": "Verus contracts on the extracted fragmentation.rs functions (recursive procedure, termination proved) on top of the Message::cut contract",
+        "level_text": "fragment() and the recursive Fragmentation::fragment are verified for all headers, payloads (unbounded chunk layouts) and MTUs >= 68 against the recursive specification frags_ok: every piece fits the MTU, pieces are consecutive slices of the payload at the 8-byte-aligned offsets recorded in their headers, MF is set on all but the piece that ends the datagram and that piece carries the datagram's own MF (which is the re-fragmentation clause), all other header fields are preserved; pass-through and DF-discard cases exact; every u16 operation proved free of overflow; termination by decreases |body|.",
+        "level_note": "Trusted: Verus/Z3 and the message unit's assumptions (Message::cut is verified there, imported here by contract). Precondition hdr_ok: ihl == 5, total_length == 20 + |payload| (decoder/builders establish both), fragment_offset*8 + |payload| <= 65535. Flag bits above DF/MF are not part of the comparison (the flag byte is 2 bits wide by construction).",
+        "assumptions": ["headers satisfy hdr_ok (ihl = 5, total_length consistent with the payload)"],
+        "explanation": "fragmentation as a faithful partition",
+    },
     "C07": {
         "units": ["message"],
         "kani": [K_MESSAGE],
